@@ -24,7 +24,11 @@ def handlers : List (String × (Json → R Json)) := [
   ("knn", Knn.hKnn),
   ("gauss_ratio", Gauss.hGaussRatio),
   ("poisson_entropy", Poisson.hPoissonEntropy),
-  ("joint_entropy", Poisson.hJointEntropy)
+  ("joint_entropy", Poisson.hJointEntropy),
+  ("optimise", Plot.hOptimise),
+  ("seed_order", Plot.hSeedOrder),
+  ("style", Plot.hStyle),
+  ("floor", Dispatch.hFloor)
 ]
 
 def handle (j : Json) : Json :=
